@@ -526,4 +526,106 @@ theorem marginal_eq_npg {μ : List Bool → List Nat → F} {g : List Bool} {row
   · apply sumBy_congr; intro l _; rw [hc0 l, mul_one]
 
 end top
+section textbook
+open ZV.Ice
+variable {F : Type} [Field F] [CharZero F]
+
+theorem filter_len_split {α : Type} (p q1 q2 : α → Bool) (L : List α)
+    (h : ∀ x ∈ L, p x = (q1 x || q2 x) ∧ ¬ (q1 x = true ∧ q2 x = true)) :
+    (L.filter p).length = (L.filter q1).length + (L.filter q2).length := by
+  induction L with
+  | nil => rfl
+  | cons x xs ih =>
+    have hx := h x (by simp)
+    have := ih (fun y hy => h y (by simp [hy]))
+    simp only [List.filter_cons, hx.1]
+    cases h1 : q1 x <;> cases h2 : q2 x <;> simp_all <;> omega
+
+/-- event-free at `k` in the cell -/
+def zAt (g : List Bool) (rows : List WRow) (k : Nat) (lbar : List Nat) : Nat :=
+  (rows.filter fun r => inCell g k lbar r && yAt r k == some 0).length
+
+theorem yAt_binary {rows : List WRow} (hb : nonBinary rows = false) {r : WRow} (hr : r ∈ rows) (k : Nat) :
+    yAt r k = none ∨ yAt r k = some 0 ∨ yAt r k = some 1 := by
+  unfold yAt
+  rw [List.getD_eq_getElem?_getD]
+  cases hk : r.ys[k]? with
+  | none => left; rfl
+  | some y =>
+    have hy : y ∈ r.ys := List.mem_of_getElem? hk
+    cases y with
+    | none => left; rfl
+    | some v =>
+      right
+      have : ¬ (1 < v) := by
+        intro hv
+        have : nonBinary rows = true := by
+          simp only [nonBinary, List.any_eq_true]
+          exact ⟨r, hr, some v, hy, by simpa using hv⟩
+        rw [hb] at this; cases this
+      have : v = 0 ∨ v = 1 := by omega
+      rcases this with h | h <;> simp [h]
+
+theorem nAt_split (g : List Bool) (rows : List WRow) (hb : nonBinary rows = false) (k : Nat) (lbar : List Nat) :
+    nAt g rows k lbar = dAt g rows k lbar + zAt g rows k lbar := by
+  unfold nAt dAt zAt
+  apply filter_len_split
+  intro r hr
+  rcases yAt_binary hb hr k with h | h | h <;> simp [h]
+
+theorem sAt_le_zAt (g : List Bool) (rows : List WRow) (k : Nat) (lbar : List Nat) (l : Nat) :
+    sAt g rows k lbar l ≤ zAt g rows k lbar := by
+  unfold sAt zAt
+  have : (rows.filter fun r => inCell g k lbar r && yAt r k == some 0 && r.ls[k + 1]? == some l) =
+      (rows.filter fun r => inCell g k lbar r && yAt r k == some 0).filter fun r => r.ls[k + 1]? == some l := by
+    rw [List.filter_filter]
+    apply List.filter_congr
+    intro r _
+    rw [Bool.and_comm]
+  rw [this]
+  exact List.length_filter_le _ _
+
+/-- The count form of `G` is the textbook recursion `h + (1 − h) Σ_l f(l) G_{k+1}(l̄,l)` with the empirical hazard
+    `h = d/n` and the empirical distribution `f(l) = s_l/(n − d)` of the next covariate among the event-free. -/
+theorem G_textbook (levels : List Nat) (g : List Bool) (rows : List WRow) (hb : nonBinary rows = false)
+    (fuel k : Nat) (lbar : List Nat) (hn : nAt g rows k lbar ≠ 0) :
+    G (F := F) levels g rows (fuel + 1) k lbar =
+      ((dAt g rows k lbar : Nat) : F) / ((nAt g rows k lbar : Nat) : F) +
+        (1 - ((dAt g rows k lbar : Nat) : F) / ((nAt g rows k lbar : Nat) : F)) *
+          sumBy (fun l => ((sAt g rows k lbar l : Nat) : F) /
+              (((nAt g rows k lbar : Nat) : F) - ((dAt g rows k lbar : Nat) : F)) *
+            G levels g rows fuel (k + 1) (lbar ++ [l])) levels := by
+  have hn' : ((nAt g rows k lbar : Nat) : F) ≠ 0 := Nat.cast_ne_zero.mpr hn
+  have hsplit := nAt_split g rows hb k lbar
+  have hz : ((nAt g rows k lbar : Nat) : F) - ((dAt g rows k lbar : Nat) : F) = ((zAt g rows k lbar : Nat) : F) := by
+    rw [hsplit]; push_cast; ring
+  show (((dAt g rows k lbar : Nat) : F) +
+      sumBy (fun l => ((sAt g rows k lbar l : Nat) : F) * G levels g rows fuel (k + 1) (lbar ++ [l])) levels)
+    / ((nAt g rows k lbar : Nat) : F) = _
+  rw [hz]
+  by_cases h0 : zAt g rows k lbar = 0
+  · have hs : ∀ l, sAt g rows k lbar l = 0 := fun l => Nat.le_zero.mp (h0 ▸ sAt_le_zAt g rows k lbar l)
+    have e1 : sumBy (fun l => ((sAt g rows k lbar l : Nat) : F) * G levels g rows fuel (k + 1) (lbar ++ [l])) levels = 0 := by
+      rw [sumBy_congr (g := fun _ => (0 : F)) (fun l _ => by simp [hs l]), sumBy_zero]
+    have e2 : sumBy (fun l => ((sAt g rows k lbar l : Nat) : F) / ((zAt g rows k lbar : Nat) : F) *
+        G levels g rows fuel (k + 1) (lbar ++ [l])) levels = 0 := by
+      rw [sumBy_congr (g := fun _ => (0 : F)) (fun l _ => by simp [hs l]), sumBy_zero]
+    rw [e1, e2]; ring
+  · have hz' : ((zAt g rows k lbar : Nat) : F) ≠ 0 := Nat.cast_ne_zero.mpr h0
+    have e : sumBy (fun l => ((sAt g rows k lbar l : Nat) : F) / ((zAt g rows k lbar : Nat) : F) *
+        G levels g rows fuel (k + 1) (lbar ++ [l])) levels =
+        sumBy (fun l => ((sAt g rows k lbar l : Nat) : F) * G levels g rows fuel (k + 1) (lbar ++ [l])) levels
+          / ((zAt g rows k lbar : Nat) : F) := by
+      rw [div_eq_mul_inv, ← sumBy_mul_right]
+      apply sumBy_congr
+      intro l _
+      ring
+    rw [e]
+    have hd : ((dAt g rows k lbar : Nat) : F) = ((nAt g rows k lbar : Nat) : F) - ((zAt g rows k lbar : Nat) : F) := by
+      rw [← hz]; ring
+    rw [hd]
+    field_simp
+    ring
+
+end textbook
 end ZV.IceL
